@@ -339,3 +339,45 @@ def run(ctx, rep):
 
     if _panics is not None:
         _panics.run_c17(F, rep, ctx)
+
+    borrow_discipline(F, rep)
+
+
+INTERPRETER_CELLS = (
+    ("bytecode::stack::Stack", "the call stack"),
+    ("bytecode::stack::TupleWithGcOpt", "a variable cell"),
+    ("bytecode::stack::VariableMapping", "a frame's / module's variable table"),
+    ("alloc::vec::Vec<bytecode::variables::primitive::Primitive>", "a list"),
+)
+
+
+def borrow_discipline(F, rep):
+    """A RefCell / GcCell borrowed twice in conflicting ways aborts the interpreter with a Rust panic (`already borrowed`), not with an MScript
+    error: for the interpreter's cells no conflicting borrow is taken while a guard may be alive (props/_borrows.py), unless the code has
+    established that the two cells are different objects."""
+    from props import _borrows
+    cells = list(INTERPRETER_CELLS)
+    C = _borrows.Cells(F, "bytecode")
+    for v in list(C.direct_mut.values()):
+        for cell in v:
+            if cell.startswith("std::collections::hash::map::HashMap<bytecode::variables::primitive::Primitive"):
+                cells.append((cell, "a map"))
+    seen = set()
+    total = 0
+    for cell, what in cells:
+        if cell in seen:
+            continue
+        seen.add(cell)
+        bad, ok_, st = _borrows.judge(F, cell, "bytecode")
+        total += st["guards_born"]
+        for f, l, prod, c, why in bad:
+            rep.ob("C17.borrow", "%s borrows %s again (%s) while the guard `%s` taken at %s is alive" % (mir.short(f.path), what, mir.short(c.callee()), f.local_name(l), prod.span),
+                   "violated", "if both denote the same object the interpreter aborts with a Rust panic (`already borrowed`) instead of an MScript error", c.span, fn=f.path,
+                   key="C17.borrow|%s|%s|%s->%s" % (what, mir.short(f.path), mir.short(prod.callee()), mir.short(c.callee())))
+        for f, l, prod, c, why in ok_:
+            rep.ob("C17.borrow", "%s borrows %s twice" % (mir.short(f.path), what), "ok", why, c.span, fn=f.path,
+                   key="C17.borrow|%s|%s|%s->%s|discharged" % (what, mir.short(f.path), mir.short(prod.callee()), mir.short(c.callee())))
+        if not bad:
+            rep.ob("C17.borrow", "no conflicting borrow of %s while a guard is alive (%d guards, %d functions that may borrow it mutably)" % (what, st["guards_born"], st["mutators"]),
+                   "ok", "", None, key="C17.borrow|%s|summary" % what)
+    rep.floor("C17.borrow guards tracked in crate bytecode", total, 80)
